@@ -493,7 +493,7 @@ def run(ctx):
     # cleaners, shared with C12.R2
     from . import c12 as _c12
     from .c08 import _take as _take13
-    _take13(r4, _c12.run(ctx), "C12.R2", lambda c: c.startswith("xlsx_clean_cell[") or c.startswith("xls_clean_cell[") or c.startswith("csv_to_dict:strips") or c.startswith("md_to_dict:strips"))
+    _take13(r4, ctx.other(_c12), "C12.R2", lambda c: c.startswith("xlsx_clean_cell[") or c.startswith("xls_clean_cell[") or c.startswith("csv_to_dict:strips") or c.startswith("md_to_dict:strips"))
     rules.append(r4)
     rules.append(cell_cleaning_rule(ctx, "C13", "C13.R6"))
     rules.append(column_order_rule(ctx, "C13", "C13.R7"))
